@@ -35,6 +35,7 @@ func TestCheck(t *testing.T) {
 	}
 	if os.Getenv("C14_ONLY") == "" || os.Getenv("C14_ONLY") == "fields" {
 		fieldFidelity(r, dir)
+		corruptCacheRestart(r, dir)
 	}
 	if os.Getenv("C14_ONLY") == "" || os.Getenv("C14_ONLY") == "conc" {
 		concurrent(r)
@@ -55,9 +56,16 @@ func TestCheck(t *testing.T) {
 		r.Require("restart_found_compared", 1000)
 		r.Require("restarts_continued", 20)
 		r.Require("restart_field_cases", 80)
+		r.Require("corrupt_cache_restart_cases", 30)
+		r.Require("corrupt_cache_refresh_incremental", 30)
 		r.Require("field_variants_seen", 50)
 		r.Require("restart_ip_form_lookups", 100)
 		r.Require("conc_rounds", 8)
+		r.Require("handover_rounds", 3)
+		r.Require("handover_syncs", 300)
+		for _, kn := range kindName {
+			r.Require("handover_lookups_overlapping_sync:"+kn, 100)
+		}
 		r.Require("conc_lookups_overlapping_sync", 100)
 		r.Require("porcupine_ok", 30)
 		r.Require("natural_order_lookups", 1000)
